@@ -288,14 +288,30 @@ func ruleWholeCopy(p *Prog, l *Ledger, tier string) {
 	}
 	st := modelStruct(p, "Item")
 	n := 0
-	for _, b := range fn.Blocks {
+	var blocks []*ssa.BasicBlock
+	for _, f := range p.Closure([]*ssa.Function{fn}) {
+		blocks = append(blocks, f.Blocks...)
+	}
+	for _, b := range blocks {
 		for _, ins := range b.Instrs {
 			al, ok := ins.(*ssa.Alloc)
 			if !ok || typeStr(al.Type().(*types.Pointer).Elem()) != "Item" {
 				continue
 			}
+			// a spilled copy of a value receiver / parameter is not a new piece
+			spilled := false
+			for _, ref := range *al.Referrers() {
+				if st2, ok := ref.(*ssa.Store); ok && st2.Addr == ssa.Value(al) {
+					if _, isPar := st2.Val.(*ssa.Parameter); isPar {
+						spilled = true
+					}
+				}
+			}
+			if spilled {
+				continue
+			}
 			n++
-			key := l.Key(rule, "Subtitles.Fragment", "new-item", "")
+			key := l.Key(rule, FnName(b.Parent()), "new-item", "")
 			whole := false
 			fields := strset{}
 			for _, ref := range *al.Referrers() {
@@ -308,7 +324,7 @@ func ruleWholeCopy(p *Prog, l *Ledger, tier string) {
 					}
 				case *ssa.FieldAddr:
 					for _, r2 := range *r.Referrers() {
-						if s2, ok := r2.(*ssa.Store); ok && s2.Addr == ssa.Value(r) && s2.Block() == b {
+						if s2, ok := r2.(*ssa.Store); ok && s2.Addr == ssa.Value(r) {
 							fields.add(fieldName(r.X.Type(), r.Field))
 						}
 					}
@@ -660,4 +676,437 @@ func ruleTextIdentity(p *Prog, l *Ledger, tier string) {
 			l.Fail(rule, "Item.String", rule+"|reads|"+f, p.Pos(str.Pos()), "Item.String no longer reads "+f+": cues with different text compare equal")
 		}
 	}
+}
+
+// ---- C13: marking order and unconditional clearing (added after seeded changes C13/1, C13/2) -------
+
+// edgesOf: the reference edges ("T.f" with f of type *Style / *Region) a pointer value was loaded from.
+func edgesOf(v ssa.Value, seen map[ssa.Value]bool, out strset) {
+	if v == nil || seen[v] {
+		return
+	}
+	seen[v] = true
+	if t, f, _ := loadedField(v); f != "" {
+		if isPtrToNamed(v.Type(), "Style", "Region") {
+			out.add(t + "." + f)
+			return
+		}
+	}
+	switch x := v.(type) {
+	case *ssa.Phi:
+		for _, e := range x.Edges {
+			edgesOf(e, seen, out)
+		}
+	case *ssa.Extract:
+		edgesOf(x.Tuple, seen, out)
+	case *ssa.UnOp:
+		edgesOf(x.X, seen, out)
+	case *ssa.FieldAddr:
+		edgesOf(x.X, seen, out)
+	case *ssa.Field:
+		edgesOf(x.X, seen, out)
+	}
+}
+
+// markKind classifies a store into a used-set (map[string]bool): "closure" when the key is the
+// ID of an object reached through Style.Style (or taken from another used-set), "direct" when
+// reached through any other reference edge, "" when it is not a marking store.
+func markKind(mu *ssa.MapUpdate) string {
+	mt, ok := mu.Map.Type().Underlying().(*types.Map)
+	if !ok {
+		return ""
+	}
+	if b, ok := mt.Elem().Underlying().(*types.Basic); !ok || b.Kind() != types.Bool {
+		return ""
+	}
+	// key = <ptr>.ID
+	if _, f, base := loadedField(mu.Key); f == "ID" && base != nil {
+		es := strset{}
+		edgesOf(base, map[ssa.Value]bool{}, es)
+		if len(es) == 0 {
+			return ""
+		}
+		for e := range es {
+			if e != "Style.Style" {
+				return "direct"
+			}
+		}
+		return "closure"
+	}
+	// key ranged from another bool map (copying a closure set into the used set)
+	if ex, ok := mu.Key.(*ssa.Extract); ok {
+		if nx, ok := ex.Tuple.(*ssa.Next); ok {
+			if r, ok := nx.Iter.(*ssa.Range); ok {
+				if m2, ok := r.X.Type().Underlying().(*types.Map); ok {
+					if b, ok := m2.Elem().Underlying().(*types.Basic); ok && b.Kind() == types.Bool {
+						return "closure"
+					}
+				}
+			}
+		}
+	}
+	return ""
+}
+
+// ruleMarkingOrder: inheritance must be closed over after every direct mark — no direct-mark
+// site may be reachable from a closure site (else parents of later-marked styles are missed).
+func ruleMarkingOrder(p *Prog, l *Ledger, tier string) {
+	const rule = "E14.M1b-marking-order"
+	fn := anchor(p, l, rule, "Subtitles.Optimize")
+	if fn == nil {
+		return
+	}
+	fns := p.Closure([]*ssa.Function{fn})
+	// per function: does its own closure contain direct / closure marks?
+	kinds := map[*ssa.Function]strset{}
+	for _, f := range fns {
+		ks := strset{}
+		for _, g := range p.Closure([]*ssa.Function{f}) {
+			for _, b := range g.Blocks {
+				for _, ins := range b.Instrs {
+					if mu, ok := ins.(*ssa.MapUpdate); ok {
+						if k := markKind(mu); k != "" {
+							ks.add(k)
+						}
+					}
+				}
+			}
+		}
+		kinds[f] = ks
+	}
+	nClosure, nDirect := 0, 0
+	for _, f := range fns {
+		type site struct {
+			ins  ssa.Instruction
+			kind string
+		}
+		var sites []site
+		for _, b := range f.Blocks {
+			for _, ins := range b.Instrs {
+				switch x := ins.(type) {
+				case *ssa.MapUpdate:
+					if k := markKind(x); k != "" {
+						sites = append(sites, site{ins, k})
+					}
+				case *ssa.Call:
+					if sc := x.Call.StaticCallee(); sc != nil && p.inScope(sc) && sc != f {
+						for k := range kinds[sc] {
+							sites = append(sites, site{ins, k})
+						}
+					}
+				}
+			}
+		}
+		for _, c := range sites {
+			if c.kind != "closure" {
+				continue
+			}
+			if _, isMU := c.ins.(*ssa.MapUpdate); isMU {
+				nClosure++
+			}
+			for _, d := range sites {
+				if d.kind != "direct" || d.ins == c.ins {
+					continue
+				}
+				if _, isMU := d.ins.(*ssa.MapUpdate); isMU {
+					nDirect++
+				}
+				if instrReaches(c.ins, d.ins) && !(c.ins.Block() == d.ins.Block() && instrDominates(d.ins, c.ins) && !inLoop(c.ins.Block())) {
+					l.Fail(rule, FnName(f), l.Key(rule, FnName(f), "order", ""), p.Pos(d.ins.Pos()),
+						fmt.Sprintf("%s: a style is marked as used at %s after the parent-style closure at %s has run: the parents of that style are not marked and get deleted although a cue still reaches them through inheritance", FnName(f), p.Pos(d.ins.Pos()), p.Pos(c.ins.Pos())))
+				}
+			}
+		}
+	}
+	if nClosure == 0 {
+		l.Undecide(rule, "Subtitles.Optimize", rule+"|closure", "", "extraction-below-minimum: no store marking the parents of used styles found (see E14.M1-reference-edges)")
+		return
+	}
+	if l.CountBadRule(rule) == 0 {
+		l.Prove(rule, "Subtitles.Optimize", rule, "", "no direct mark (item, run or region reference) can execute after the parent-style closure")
+	}
+}
+
+func inLoop(b *ssa.BasicBlock) bool {
+	for _, x := range b.Parent().Blocks {
+		if lp := loopOf(x); lp != nil && lp[b] {
+			return true
+		}
+	}
+	return false
+}
+
+// ruleUnconditionalClearing: every styling store of RemoveStyling executes for every element —
+// it is control-dependent only on loop bounds (or on a nil test of the field being cleared).
+func ruleUnconditionalClearing(p *Prog, l *Ledger, tier string) {
+	const rule = "E14.M2b-unconditional-clearing"
+	fn := anchor(p, l, rule, "Subtitles.RemoveStyling")
+	if fn == nil {
+		return
+	}
+	a := NewNilAnalysis(p)
+	n := 0
+	for _, f := range p.Closure([]*ssa.Function{fn}) {
+		for _, b := range f.Blocks {
+			for _, ins := range b.Instrs {
+				st, ok := ins.(*ssa.Store)
+				if !ok {
+					continue
+				}
+				t, fld := fieldOfAddr(st.Addr)
+				if fld == "" || !(t == "Subtitles" || t == "Item" || t == "Line" || t == "LineItem") {
+					continue
+				}
+				n++
+				key := l.Key(rule, FnName(f), "clear", t+"."+fld)
+				bad := ""
+				for _, dc := range dominatingConds(b) {
+					if isLoopBoundCond(dc.cond) {
+						continue
+					}
+					// a nil test of the very location being cleared
+					if bo, ok := dc.cond.(*ssa.BinOp); ok && (isNilConst(bo.X) || isNilConst(bo.Y)) {
+						x := bo.X
+						if isNilConst(bo.X) {
+							x = bo.Y
+						}
+						if a.key(x) == a.loc(st.Addr) {
+							continue
+						}
+					}
+					bad = p.Pos(dc.cond.Pos())
+					if bad == "-" {
+						bad = "a data-dependent condition"
+					}
+				}
+				if bad == "" {
+					l.Prove(rule, FnName(f), key, p.Pos(st.Pos()), t+"."+fld+" is cleared for every element (the store depends on loop bounds only)")
+				} else {
+					l.Fail(rule, FnName(f), key, p.Pos(st.Pos()), fmt.Sprintf("%s: %s.%s is cleared only when the condition at %s holds: some cues or runs keep their styling", FnName(f), t, fld, bad))
+				}
+			}
+		}
+	}
+	l.Min(rule, n, 7)
+}
+
+// isLoopBoundCond: the comparison of a range / counted loop (index against a length or Next's ok).
+func isLoopBoundCond(c ssa.Value) bool {
+	switch x := c.(type) {
+	case *ssa.BinOp:
+		if x.Op != token.LSS && x.Op != token.LEQ && x.Op != token.GTR && x.Op != token.GEQ && x.Op != token.NEQ {
+			return false
+		}
+		for _, side := range []ssa.Value{x.X, x.Y} {
+			base, _ := linear(side)
+			if call, ok := base.(*ssa.Call); ok {
+				if bi, ok := call.Call.Value.(*ssa.Builtin); ok && bi.Name() == "len" {
+					return true
+				}
+			}
+		}
+	case *ssa.Extract:
+		_, ok := x.Tuple.(*ssa.Next)
+		return ok && x.Index == 0
+	}
+	return false
+}
+
+// ---- E13-I4 full scan (added after seeded change C09/1) -------------------------------------------
+// A transformation that must treat every cue alike visits every element: each of its loops is
+// left only through its bound test (no data-dependent break, no data term in the loop condition).
+func ruleFullScan(names ...string) func(p *Prog, l *Ledger, tier string) {
+	return func(p *Prog, l *Ledger, tier string) {
+		const rule = "E13.I4-full-scan"
+		n := 0
+		for _, name := range names {
+			fn := anchor(p, l, rule, name)
+			if fn == nil {
+				continue
+			}
+			for _, li := range loopsOf(fn) {
+				n++
+				key := l.Key(rule, name, "loop", loopDesc(li))
+				bad := ""
+				for b := range li.blocks {
+					for i, s := range b.Succs {
+						if li.blocks[s] {
+							continue
+						}
+						iff, ok := b.Instrs[len(b.Instrs)-1].(*ssa.If)
+						if !ok {
+							continue
+						}
+						_ = i
+						if !isLoopBoundCond(iff.Cond) {
+							bad = p.Pos(iff.Cond.Pos())
+							if bad == "-" {
+								bad = blockPos(p, b)
+							}
+						}
+					}
+					if _, ok := b.Instrs[len(b.Instrs)-1].(*ssa.Return); ok {
+						bad = blockPos(p, b)
+					}
+				}
+				if bad == "" {
+					l.Prove(rule, name, key, blockPos(p, li.header), "the loop is left only through its bound test: every element is visited")
+				} else {
+					l.Fail(rule, name, key, blockPos(p, li.header), fmt.Sprintf("%s: the loop at %s can stop early on a data-dependent condition (%s): cues after that point are not shifted / clamped / removed like the others", name, blockPos(p, li.header), bad))
+				}
+			}
+		}
+		l.Min(rule, n, len(names))
+	}
+}
+
+// ---- E13-I5 complementary exit (added after seeded change C11/3) -----------------------------------
+// In Unfragment the merge test and the early-exit test compare the same pair (EndAt of the kept
+// cue, StartAt of the candidate); a pair that satisfies the merge relation must never satisfy the
+// exit relation. Relations are finite sets over {<, =, >}.
+func relSet(op token.Token, swapped, taken bool) map[byte]bool {
+	sets := map[token.Token]string{token.LSS: "<", token.LEQ: "<=", token.GTR: ">", token.GEQ: ">=", token.EQL: "=", token.NEQ: "<>"}
+	s, ok := sets[op]
+	if !ok {
+		return nil
+	}
+	out := map[byte]bool{}
+	for i := 0; i < len(s); i++ {
+		out[s[i]] = true
+	}
+	if swapped {
+		sw := map[byte]bool{}
+		for c := range out {
+			switch c {
+			case '<':
+				sw['>'] = true
+			case '>':
+				sw['<'] = true
+			default:
+				sw[c] = true
+			}
+		}
+		out = sw
+	}
+	if !taken {
+		co := map[byte]bool{}
+		for _, c := range []byte{'<', '=', '>'} {
+			if !out[c] {
+				co[c] = true
+			}
+		}
+		out = co
+	}
+	return out
+}
+
+func ruleComplementaryExit(p *Prog, l *Ledger, tier string) {
+	const rule = "E13.I5-complementary-exit"
+	fn := anchor(p, l, rule, "Subtitles.Unfragment")
+	if fn == nil {
+		return
+	}
+	a := NewNilAnalysis(p)
+	dels := inPlaceDeletes(fn)
+	if len(dels) == 0 {
+		l.Prove(rule, "Subtitles.Unfragment", rule+"|idiom-absent", p.Pos(fn.Pos()), "idiom-absent: no in-place deletion in Unfragment")
+		return
+	}
+	type cmp struct {
+		iff     *ssa.If
+		op      token.Token
+		swapped bool // operands are (StartAt, EndAt) instead of (EndAt, StartAt)
+		pair    string
+	}
+	var cmps []cmp
+	for _, b := range fn.Blocks {
+		iff, ok := b.Instrs[len(b.Instrs)-1].(*ssa.If)
+		if !ok {
+			continue
+		}
+		bo, ok := iff.Cond.(*ssa.BinOp)
+		if !ok {
+			continue
+		}
+		_, fx, bx := loadedField(bo.X)
+		_, fy, by := loadedField(bo.Y)
+		if bx == nil || by == nil {
+			continue
+		}
+		switch {
+		case fx == "EndAt" && fy == "StartAt":
+			cmps = append(cmps, cmp{iff, bo.Op, false, a.key(bx) + "|" + a.key(by)})
+		case fx == "StartAt" && fy == "EndAt":
+			cmps = append(cmps, cmp{iff, bo.Op, true, a.key(by) + "|" + a.key(bx)})
+		}
+	}
+	for _, d := range dels {
+		key := l.Key(rule, "Subtitles.Unfragment", "merge-vs-exit", "")
+		pos := p.Pos(d.st.Pos())
+		// relation known on the path to the merge
+		merge := map[byte]bool{'<': true, '=': true, '>': true}
+		pair := ""
+		for _, c := range cmps {
+			for si, s := range c.iff.Block().Succs {
+				if s.Dominates(d.st.Block()) && len(s.Preds) == 1 {
+					rs := relSet(c.op, c.swapped, si == 0)
+					for k := range merge {
+						if !rs[k] {
+							delete(merge, k)
+						}
+					}
+					pair = c.pair
+				}
+			}
+		}
+		if pair == "" {
+			l.Undecide(rule, "Subtitles.Unfragment", key, pos, "the merge is not guarded by a comparison of EndAt with StartAt")
+			continue
+		}
+		// exits of the loop containing the merge, taken on a comparison of the same pair
+		ph, _ := d.idx.(*ssa.Phi)
+		var lp map[*ssa.BasicBlock]bool
+		if ph != nil {
+			lp = loopOf(ph.Block())
+		}
+		nExit := 0
+		ok := true
+		why := ""
+		for _, c := range cmps {
+			if c.pair != pair || lp == nil || !lp[c.iff.Block()] {
+				continue
+			}
+			for si, s := range c.iff.Block().Succs {
+				if lp[s] {
+					continue
+				}
+				nExit++
+				exit := relSet(c.op, c.swapped, si == 0)
+				for k := range exit {
+					if merge[k] {
+						ok = false
+						why = fmt.Sprintf("the scan is abandoned at %s when EndAt %c StartAt, a relation under which the two cues touch or overlap and must be merged", p.Pos(c.iff.Cond.Pos()), k)
+					}
+				}
+			}
+		}
+		switch {
+		case !ok:
+			l.Fail(rule, "Subtitles.Unfragment", key, pos, "Subtitles.Unfragment: "+why)
+		case nExit == 0:
+			l.Prove(rule, "Subtitles.Unfragment", key, pos, "no early exit on the merge pair: the scan visits every later cue")
+		default:
+			l.Prove(rule, "Subtitles.Unfragment", key, pos, fmt.Sprintf("merge relation %s and exit relation are disjoint over {<,=,>}", relStr(merge)))
+		}
+	}
+}
+
+func relStr(m map[byte]bool) string {
+	s := "{"
+	for _, c := range []byte{'<', '=', '>'} {
+		if m[c] {
+			s += string(c)
+		}
+	}
+	return s + "}"
 }
